@@ -157,6 +157,7 @@ func verifRecalc(pods, ctrs int, err error) (int, int, error) {
 // H_C09_chunk_arithmetic: the chunk size computed from a rejection is within [0, n] and smaller than n, for
 // every n up to 4096 and every rejected length above the limit (exact float64 semantics).
 //verif:property C09
+//verif:qtimeout 240000
 //verif:expect-cover done
 func H_C09_chunk_arithmetic() {
 	pods, ctrs := nondetInt(), nondetInt()
